@@ -273,7 +273,8 @@ PENDING_REASON = "check not built yet in this round (design in DESIGN.md section
 # Extensions made after the seeding waves (appended to the level text / note of the check).
 ADDENDA = {
     "C09": " The pair also runs on FrameCount.POSTPONED renderables (resolving to definite / INDEFINITE, read or unread), with a hash-colliding pair of render-args values and with output that depends on the duration setting. "
-           "Render-args re-application with equal-valued distinct objects (quick tier: the canon then also records whether a cache entry holds the current args object); draw()'s internal iterator with infinite / finite loops interrupted at every output point, render count <= distinct frames.",
+           "Render-args re-application with equal-valued distinct objects (quick tier: the canon then also records whether a cache entry holds the current args object); draw()'s internal iterator with infinite / finite loops interrupted at every output point, render count <= distinct frames. "
+           "Image-iterator pairs also run with padded specifiers of non-default alignment on both axes (re-rendered frames of a cached loop are formatted again).",
     "C01": " Plus the iter(image) entry point (frames == str(image) at that frame, exactly rendered_size).",
     "C12": " Configurations also vary the process environment (TERM_PROGRAM / TERM_PROGRAM_VERSION unset or set, judged against the documented fallback wherever XTVERSION is unsupported, disabled or unanswered, with a reply taking precedence) and the configured query timeout (0.05 / 0.1 / 0.5 s, + 0.03 in thorough) with reply delays on both sides of the 0.1 s default; elapsed virtual time is bounded by the configured timeout per query. "
            "DA1 reply variants include a 174-byte reply (drained tail longer than one read chunk).",
@@ -330,7 +331,8 @@ ADDENDA = {
            "iterator priming are fault points too (OSError, KeyboardInterrupt); a constructor that raised is followed by "
            "a garbage collection. "
            "Padding-object faults also strike inside _from_render_data_ (caller data with finalize=False must stay un-finalized and reusable). "
-           "_from_render_data_ over already-finalized caller data with finalize=True and finalize=False must be rejected.",
+           "_from_render_data_ over already-finalized caller data with finalize=True and finalize=False must be rejected. "
+           "The protected _init_render_(renderer, iteration=, finalize=) called directly (both flags, returning / raising renderer) is part of the operation alphabet.",
     "C11": " Dynamic sizes (FIT, FIT_TO_WIDTH) with terminal resizes between and inside cached loops are part of the "
            "fault-free iteration searches (depth 7 / 8); for every draw(), a persistent standard-output failure from "
            "every write/flush index on (BrokenPipeError; ValueError of a closed stream in thorough), after which the "
@@ -350,7 +352,8 @@ ADDENDA = {
            "migration) is part of the cell alphabet; the probe and cell searches are repeated in a world where standard "
            "output is not the active terminal (shutil's size is a constant differing from every terminal size). "
            "Also a get racing with enable_win_size_swap() followed by a sequential get (<= 2 preemptions), and a search in which a cell-size query times out and its replies arrive before the next query after a resize (nothing stale may be memoized). "
-           "cached probe arguments are distinct tuples with equal hashes (each needs its own entry), and a terminal_size_cached body during which the terminal is resized (the value belongs to the size the call started with).",
+           "cached probe arguments are distinct tuples with equal hashes (each needs its own entry), and a terminal_size_cached body during which the terminal is resized (the value belongs to the size the call started with). "
+           "One more probe search calls the cached probe with keyword arguments of equal values and different names (a=-1 / b=-1: two argument tuples, two entries).",
     "C18": " Identities kitty / kitty 0.25.0 / konsole / unrecognised terminal with forced kitty support / other; "
            "transitions include a neighbour on the image's rows changing, the public clear_images() in all its forms, and "
            "widgets of a subclass with format-spec z fields. A fault dimension: the k-th write of a redraw raises EAGAIN "
